@@ -277,7 +277,7 @@ def deterministic_paths(rep, svh, rng, gates, count, quick):
                     continue
                 expect = docformats.save(fmt, [bits] * shots)
                 for streaming in (0, 1):
-                    for refmode in (['tableau', 'tree'] if not quick else ['tableau']):
+                    for refmode in (['tableau', 'tree'] if not quick else [rng.choice(['tableau', 'tree'])]):
                         W = rng.choice([64, 128, 256])
                         try:
                             out = svh.request('fsample_bytes', [W, rng.randrange(1 << 30), shots, fmt, streaming, refmode], text)
